@@ -167,13 +167,16 @@ void run_val()
     SimTag t(SIM_TAG_SUT);
     tv = new TV(VCodec<T>::enc(0));
   }
+  const int empty_at = p->empty_at;
+  auto enc = [empty_at](int i) { return i == empty_at ? T() : VCodec<T>::enc(i); };
+  auto dec = [empty_at](const T &x) { return empty_at >= 1 && x == T() ? empty_at : VCodec<T>::dec(x); };
   sim_watch(tv, sizeof *tv, "TransactionalValue");
   std::thread producer([=]() {
     for (int i = 1; i <= p->nassign; i++) {
       c12v_assign_begin(i);
       {
         SimTag t(SIM_TAG_SUT);
-        *tv = VCodec<T>::enc(i);
+        *tv = enc(i);
       }
       c12v_assign_end(i);
       sim_work((uint32_t)p->work);
@@ -181,16 +184,16 @@ void run_val()
   });
   auto observe = [&](int kind) {
     SimTag t(SIM_TAG_SUT);
-    int before = VCodec<T>::dec(tv->get());
+    int before = dec(tv->get());
     int ret = -1;
     int after;
     if (kind == C12V_UPDATE) {
       ret = tv->update() ? 1 : 0;
-      after = VCodec<T>::dec(tv->get());
+      after = dec(tv->get());
     } else if (kind == C12V_GET) {
-      after = VCodec<T>::dec(tv->get());
+      after = dec(tv->get());
     } else {
-      after = VCodec<T>::dec(tv->ref());
+      after = dec(tv->ref());
     }
     c12v_observe(kind, before, after, ret);
   };
@@ -201,7 +204,7 @@ void run_val()
   observe(C12V_UPDATE);
   {
     SimTag t(SIM_TAG_SUT);
-    c12v_final(VCodec<T>::dec(tv->get()));
+    c12v_final(dec(tv->get()));
   }
   observe(C12V_UPDATE);
   sim_unwatch(tv);
